@@ -9,6 +9,9 @@ TRUSTED_BASE = [
 ]
 ASSUMPTIONS = TRUSTED_BASE + [
     "NOT decided (outside this family): that aiorunner's asyncio loop / thread / process pool execute every submitted unit exactly once under all timings and shut down cleanly -- concurrency across a thread and processes",
+    "proved per shape (3 interfaces / 0 or 3 active paths, values symbolic): the `current` block of setup_config (mechanically extracted `if 'current' in config:` statement): a restart returns None (nothing to do) exactly when cstep == restarted_from, "
+    "otherwise records restarted_from := cstep, leaves cstep and the active paths untouched and continues iff traj.txt of every active path exists (os.path.isfile uninterpreted); a fresh start sets traj_num = size = n, cstep 0, active 0..n-1, no locks and writes the header once. "
+    "That a LARGER `steps` value then continues follows with REPEX_state.loop's contract (cstep < steps); the toml merge before the block (file I/O) is not verified",
     "future_list.as_completed is a busy-wait: partial correctness only (termination depends on the futures completing)",
     "domain of the step-count theorem: workers >= 1, steps >= workers, 0 <= restart point <= steps",
 ]
@@ -23,6 +26,8 @@ EXPLANATION = (
 def jobs(tier):
     fs = [("REPEX.initiate", 1), ("REPEX.loop", 1), ("FutList.as_completed", 2), ("scheduler", 2)]
     js = [("e1", {"name": k, "registry": "contracts.sched", "key": k, "clause": "step arithmetic", "cost": c, "parallel": 2}) for k, c in fs]
+    js.append(("e1", {"name": "setup_config_current", "registry": "contracts.setup_norm", "key": "setup_config#current",
+               "clause": "restart entry: nothing left to do iff cstep == restarted_from; otherwise continue from cstep (restarted_from := cstep) iff every active path is on disk; a fresh start initialises `current` and writes the data-file header once", "cost": 1, "parallel": 2}))
     js.append(("py", {"name": "native_crosscheck", "module": "props.C17", "fn": "native_crosscheck"}))
     return js
 
